@@ -208,6 +208,12 @@ type Checker struct {
 	Res   *term.Resolver
 	Subst []string // when checking a helper: caller-side terms of the helper's parameters
 	Depth int      // helper inlining depth
+	// ArgVals / Parent: when checking a helper in the context of one call — the argument values of that call and
+	// the checker of the calling function (so that a function-valued parameter can be resolved to the closure the
+	// caller passes). FreeSubst: when checking a closure — caller-side terms of its captured variables.
+	ArgVals   []ssa.Value
+	Parent    *Checker
+	FreeSubst map[string]string
 
 	// MustRespond mode
 	through *ssa.BasicBlock
@@ -262,7 +268,72 @@ func (c *Checker) pred(v ssa.Value) (Pred, bool, bool) {
 		sub := func(s string) string { return substParams(s, c.Subst, "#callee") }
 		p.A, p.B = sub(p.A), sub(p.B)
 	}
+	if ok && len(c.FreeSubst) > 0 {
+		p.A, p.B = c.substFree(p.A), c.substFree(p.B)
+	}
 	return p, pol, ok
+}
+
+var reFree = regexp.MustCompile(`\*?free:(\w+)`)
+
+func (c *Checker) substFree(s string) string {
+	return reFree.ReplaceAllStringFunc(s, func(m string) string {
+		name := reFree.FindStringSubmatch(m)[1]
+		if t, ok := c.FreeSubst[name]; ok {
+			return t
+		}
+		return m
+	})
+}
+
+// T: the term of a value of the checked function, in the vocabulary of the outermost caller.
+func (c *Checker) T(v ssa.Value) string {
+	t := c.Res.Of(v).String()
+	if len(c.Subst) > 0 {
+		t = substParams(t, c.Subst, "")
+	}
+	if len(c.FreeSubst) > 0 {
+		t = c.substFree(t)
+	}
+	return t
+}
+
+// funcOfParam: the function a function-valued parameter of the checked helper stands for at the call under
+// consideration (a function, or a closure with the caller-side terms of its captured variables).
+func (c *Checker) funcOfParam(v ssa.Value) (*ssa.Function, map[string]string) {
+	p, ok := v.(*ssa.Parameter)
+	if !ok || c.Parent == nil {
+		return nil, nil
+	}
+	idx := -1
+	for i, q := range c.Fn.Params {
+		if q == p {
+			idx = i
+		}
+	}
+	if idx < 0 || idx >= len(c.ArgVals) {
+		return nil, nil
+	}
+	switch a := c.ArgVals[idx].(type) {
+	case *ssa.Function:
+		return a, nil
+	case *ssa.MakeClosure:
+		fn, _ := a.Fn.(*ssa.Function)
+		if fn == nil {
+			return nil, nil
+		}
+		fs := map[string]string{}
+		for i, fv := range fn.FreeVars {
+			if i < len(a.Bindings) {
+				t := c.Parent.T(a.Bindings[i])
+				fs[fv.Name()] = strings.TrimPrefix(strings.TrimPrefix(t, "~"), "&")
+			}
+		}
+		return fn, fs
+	case *ssa.Parameter:
+		return c.Parent.funcOfParam(a)
+	}
+	return nil, nil
 }
 
 // helperCall recognises a condition that is decided by a module helper: a bool-returning call (want = the
@@ -314,6 +385,13 @@ func (c *Checker) helperImplies(call *ssa.Call, isErr bool, want bool, atoms []A
 		return false
 	}
 	_, callees := term.CalleeName(c.P, &call.Call)
+	var freeSubst map[string]string
+	if len(callees) != 1 && !call.Call.IsInvoke() {
+		// a call of a function-valued parameter: the closure (or function) the caller passed
+		if fn, fs := c.funcOfParam(call.Call.Value); fn != nil {
+			callees, freeSubst = []*ssa.Function{fn}, fs
+		}
+	}
 	if len(callees) != 1 || len(callees[0].Blocks) == 0 {
 		return false
 	}
@@ -325,14 +403,10 @@ func (c *Checker) helperImplies(call *ssa.Call, isErr bool, want bool, atoms []A
 	subst := make([]string, len(h.Params))
 	for i, a := range call.Call.Args {
 		if i+off < len(subst) {
-			t := c.Res.Of(a).String()
-			if len(c.Subst) > 0 {
-				t = substParams(t, c.Subst, "")
-			}
-			subst[i+off] = t
+			subst[i+off] = c.T(a)
 		}
 	}
-	hc := &Checker{P: c.P, Fn: h, Res: term.NewResolver(c.P, c.Res.Mods, h), Subst: subst, Depth: c.Depth + 1}
+	hc := &Checker{P: c.P, Fn: h, Res: term.NewResolver(c.P, c.Res.Mods, h), Subst: subst, Depth: c.Depth + 1, ArgVals: call.Call.Args, Parent: c, FreeSubst: freeSubst}
 	if os.Getenv("SAODEBUG") != "" {
 		fmt.Fprintf(os.Stderr, "helperImplies %s want=%v subst=%v atoms=%d first=%s\n", c.P.Name(h), want, subst, len(atoms), atoms[0].Desc)
 		for _, b := range h.Blocks {
